@@ -83,6 +83,8 @@ pub trait Scheme: Sized + Send + Sync + 'static {
     const HAS_HIDING: bool;
     /// hiding bound may not exceed the degree bound (Sonic's shifted blinding key)
     const HIDING_LE_BOUND: bool = false;
+    /// opening-challenge schedule, for the schemes that combine polynomials with sponge challenges
+    const SCHEDULE: Option<crate::replay::Schedule> = None;
     type F: PrimeField + Absorb;
     type Pt: Clone + Debug + Ord + Hash + Sync + Send;
     type P: Polynomial<Self::F, Point = Self::Pt> + Clone + Debug + Send + Sync;
@@ -285,12 +287,13 @@ pub struct Marlin;
 pub struct Sonic;
 
 macro_rules! kzg_family {
-    ($name:ident, $pc:ty, $label:expr, $hle:expr) => {
+    ($name:ident, $pc:ty, $label:expr, $hle:expr, $sch:expr) => {
         impl Scheme for $name {
             const NAME: &'static str = $label;
             const HAS_BOUNDS: bool = true;
             const HAS_HIDING: bool = true;
             const HIDING_LE_BOUND: bool = $hle;
+            const SCHEDULE: Option<crate::replay::Schedule> = Some($sch);
             type F = Fr;
             type Pt = Fr;
             type P = UniPoly;
@@ -327,8 +330,8 @@ macro_rules! kzg_family {
     };
 }
 
-kzg_family!(Marlin, MarlinPC, "marlin", false);
-kzg_family!(Sonic, SonicPC, "sonic", true);
+kzg_family!(Marlin, MarlinPC, "marlin", false, crate::replay::Schedule::Marlin);
+kzg_family!(Sonic, SonicPC, "sonic", true, crate::replay::Schedule::Sonic);
 
 // ---------------------------------------------------------------------------------------------
 // IPA
@@ -340,6 +343,7 @@ impl Scheme for Ipa {
     const NAME: &'static str = "ipa";
     const HAS_BOUNDS: bool = true;
     const HAS_HIDING: bool = true;
+    const SCHEDULE: Option<crate::replay::Schedule> = Some(crate::replay::Schedule::Ipa);
     type F = JFr;
     type Pt = JFr;
     type P = JUniPoly;
@@ -421,6 +425,7 @@ impl Scheme for Pst13 {
     const NAME: &'static str = "pst13";
     const HAS_BOUNDS: bool = false;
     const HAS_HIDING: bool = true;
+    const SCHEDULE: Option<crate::replay::Schedule> = Some(crate::replay::Schedule::Marlin);
     type F = Fr;
     type Pt = Vec<Fr>;
     type P = MVPoly;
